@@ -77,6 +77,7 @@ pub open spec fn link_charged(o: &SrtlaConnection, n: &SrtlaConnection, seq: i32
 pub open spec fn distinct_conn_ids(conns: Seq<SrtlaConnection>) -> bool {
     forall|i: int, j: int| 0 <= i < j < conns.len() ==> conns[i].conn_id != conns[j].conn_id
 }
+pub open spec fn phases_kept(o: Seq<SrtlaConnection>, n: Seq<SrtlaConnection>) -> bool { o.len() == n.len() && forall|j: int| 0 <= j < o.len() ==> (#[trigger] n[j]).phase == o[j].phase && n[j].conn_id == o[j].conn_id }
 pub open spec fn links_wf(conns: Seq<SrtlaConnection>) -> bool {
     forall|i: int| 0 <= i < conns.len() ==> (#[trigger] conns[i]).wf_count() && win_ok(conns[i].window) && conns[i].above_hw()
 }
@@ -199,7 +200,8 @@ pub open spec fn plus_one_capped(o: &SrtlaConnection) -> i32 {
 pub open spec fn vec_views(v: Seq<Vec<u8>>) -> Seq<Seq<u8>> { v.map(|i: int, x: Vec<u8>| x@) }
 '''
 
-_EV_BASE = ['connections.len() == old(connections).len()', 'idx < connections.len()', 'links_wf(connections@)', 'distinct_conn_ids(connections@)', '0 < current_time_ms < CLOCK_MAX']
+_EV_BASE = ['connections.len() == old(connections).len()', 'idx < connections.len()', 'links_wf(connections@)', 'distinct_conn_ids(connections@)', '0 < current_time_ms < CLOCK_MAX',
+            'phases_kept(old(connections)@, connections@)']
 
 
 def add_events(u):
@@ -213,7 +215,8 @@ def add_events(u):
             assert(last_client_addr is Some && idx < connections.len() ==> wire =~= vec_views(incoming.forward_to_client@));  // @ob C09.events.forwarded_datagrams_reach_the_client_once_in_order
         } return Ok(()); }''', None)],
                requires=['links_wf(old(connections)@)', 'distinct_conn_ids(old(connections)@)'],
-               ensures=['final(connections).len() == old(connections).len()', 'links_wf(final(connections)@)'],
+               ensures=['final(connections).len() == old(connections).len()', 'links_wf(final(connections)@)', 'distinct_conn_ids(final(connections)@)',
+                        C('C12.events.acks_and_naks_never_change_a_link_phase_or_identity', 'phases_kept(old(connections)@, final(connections)@)')],
                loops={
                    0: dict(inv=_EV_BASE + ['ack_nx <= incoming.ack_numbers.len()',
                                            C('C02.events.cumulative_ack_reaches_every_link', 'forall|a: int| 0 <= a < ack_nx && incoming.ack_numbers[a] as i32 != i32::MIN ==> all_above(connections@, #[trigger] incoming.ack_numbers[a] as i32)')],
@@ -246,8 +249,7 @@ def add_events(u):
                            dec='incoming.forward_to_client.len() - pkt_nx'),
                },
                splices=[
-                   ('let mut c_nx: usize = 0;\n        while c_nx < connections.len()\n            \n        invariant\n            connections.len() == old(connections).len(),\n            idx < connections.len(),\n            links_wf(connections@),\n            distinct_conn_ids(connections@),\n            0 < current_time_ms < CLOCK_MAX,\n            c_nx <= connections.len(),\n            ack_ix',
-                    'let ghost in0 = connections@;\n        let mut c_nx: usize = 0;\n        while c_nx < connections.len()\n            \n        invariant\n            connections.len() == old(connections).len(),\n            idx < connections.len(),\n            links_wf(connections@),\n            distinct_conn_ids(connections@),\n            0 < current_time_ms < CLOCK_MAX,\n            c_nx <= connections.len(),\n            ack_ix', 'replace'),
+                   ('let mut c_nx: usize = 0;', 'let ghost in0 = connections@;', 'before', 'first'),
                    ('let mut srtla_ack_nx: usize = 0;', 'let ghost after_acks = connections@;', 'before'),
                    ('let found_on_arrival =', 'let ghost it0 = connections@;', 'before'),
                    ('connections[idx].handle_srtla_ack_specific(*srtla_ack as i32, classic, current_time_ms);',
